@@ -50,7 +50,7 @@ def getPackages (accepts : Str → Bool) (standard novendor : Bool) : List Line 
       else getPackages accepts standard novendor ls (AList.insert acc p l.name)
 
 /-- a line that can produce an entry -/
-def admits (accepts : Str → Bool) (standard novendor : Bool) (l : Line) : Bool :=
+def passesFilters (accepts : Str → Bool) (standard novendor : Bool) (l : Line) : Bool :=
   l.standard == standard && !(novendor && hasVendor l.path) && l.name != b!"main" && accepts l.path
 
 end GenNames
